@@ -111,7 +111,7 @@ Variants(ln) ==
          { <<"fqual-unterminated", "                     /note=\"never closed", 0, "">>, <<"fqual-shrunk", "                    /gene=\"x\"", 0, "">> }
     [] ln.kind = "ODATA" /\ ln.res = 10 ->
          { <<"odata-short", "       61 acgtacgt", 8, "">>, <<"odata-long", "       61 acgtacgtac gt", 12, "">>,
-           <<"odata-badindex", "       51 acgtacgtac", 10, "">>, <<"odata-nospace", "       61acgtacgtac", 10, "">> }
+           <<"odata-badindex", "       51 acgtacgtac", 10, "">>, <<"odata-nospace", "       61acgtacgtac", 0, "">> }
     [] ln.kind = "ODATA" /\ ln.res = 60 ->
          { <<"odata-short", "        1 acgtacgtac gtacgtacgt acgtacgtac gtacgtacgt acgtacgtac gtacgtacg", 59, "">>,
            <<"odata-group", "        1 acgtacgtacg tacgtacgt acgtacgtac gtacgtacgt acgtacgtac gtacgtacgt", 60, "">> }
@@ -139,8 +139,14 @@ ApplyAll(ls, ms) == IF ms = <<>> THEN ls ELSE ApplyAll(ApplyMut(ls, Head(ms)), T
 (***************************************************************************)
 (* What the specification knows about a mutated GenBank line list          *)
 (***************************************************************************)
-RECURSIVE SumRes(_)
-SumRes(ls) == IF ls = <<>> THEN 0 ELSE (IF Head(ls).kind = "ODATA" THEN Head(ls).res ELSE 0) + SumRes(Tail(ls))
+\* residues in the ORIGIN block: the sequence lines that directly follow the
+\* (first) ORIGIN line; sequence lines elsewhere are stray lines, not the block
+RECURSIVE RunRes(_, _)
+RunRes(ls, j) == IF j > Len(ls) \/ ls[j].kind # "ODATA" THEN 0 ELSE ls[j].res + RunRes(ls, j + 1)
+\* with several ORIGIN lines (duplicated by a mutation) either block may be "the" block
+BlockSizes(ls) ==
+  LET os == {j \in 1..Len(ls) : ls[j].kind = "ORIGIN"}
+  IN IF os = {} THEN {0} ELSE {RunRes(ls, j + 1) : j \in os}
 Flags(ls) == {ls[j].flag : j \in 1..Len(ls)} \ {""}
 DeclaredFlag(f) == f \in {"declared:60", "declared:2", "declared:71", "declared:130", "declared:0"}
 DeclaredValue(f) == CASE f = "declared:60" -> 60 [] f = "declared:2" -> 2 [] f = "declared:71" -> 71 [] f = "declared:130" -> 130 [] OTHER -> 0
@@ -155,8 +161,13 @@ Inconsistent(ls, dflt) ==
       ds == {f \in fs : DeclaredFlag(f)}
       declared == IF ds = {} THEN dflt ELSE DeclaredValue(CHOOSE f \in ds : TRUE)
       nLocus == Cardinality({j \in 1..Len(ls) : ls[j].kind = "LOCUS"})
+      \* a line belongs to a DBLINK field if it is the DBLINK line or one of its continuation lines
+      inDb(j) == ls[j].kind = "DBLINK" \/
+                 (ls[j].kind = "DBCONT" /\ \E i \in 1..(j - 1) : ls[i].kind = "DBLINK" /\ \A q \in (i + 1)..(j - 1) : ls[q].kind = "DBCONT")
+      dblinkBad == \E j \in 1..Len(ls) : ls[j].flag = "dblink" /\ inDb(j)
   IN IF nLocus # 1 THEN {}      \* several or no records: judged on totality only
-     ELSE (IF declared # SumRes(ls) THEN {"length"} ELSE {})
-          \cup (fs \cap {"indent", "dblink", "widename"})
+     ELSE (IF declared \notin BlockSizes(ls) THEN {"length"} ELSE {})
+          \cup (fs \cap {"indent", "widename"})
+          \cup (IF dblinkBad THEN {"dblink"} ELSE {})
 
 =============================================================================
